@@ -4,6 +4,7 @@ import PsVerif.Driver.Abs
 import PsVerif.Driver.ScriptD
 import PsVerif.Driver.Registry
 import PsVerif.Driver.PolicyD
+import PsVerif.Driver.SyncD
 /-
 psdriver: one request per line on stdin, one reply per line on stdout.
 The replies are computed by the SAME definitions the theorems in PsVerif/Props are about.
@@ -15,6 +16,7 @@ structure DState where
   abs : AbsState := .none
   reg : PsVerif.Model.Service.Reg := ⟨[], []⟩
   pol : Option PsVerif.Model.PolicyFile.St := none
+  sync : Option SyncState := none
 
 def step (st : DState) (ws : List String) : DState × String :=
   match handlePure ws with
@@ -34,6 +36,9 @@ def step (st : DState) (ws : List String) : DState × String :=
   | none =>
   match handlePolicy st.pol ws with
   | some (p, r) => ({ st with pol := p }, r)
+  | none =>
+  match handleSync st.sync ws with
+  | some (y, r) => ({ st with sync := y }, r)
   | none => (st, "bad-op")
 
 partial def loop (hin hout : IO.FS.Stream) (st : DState) : IO Unit := do
